@@ -151,8 +151,13 @@ namespace sim
 		const int packet_size = int(p.buffer.size() + p.overhead);
 		m_queue_size -= packet_size;
 
+		// the packet may hold the last reference to this queue (through its
+		// own route, or the channel it belongs to): handing it on can destroy
+		// the queue
+		std::weak_ptr<int> const alive = m_alive;
 		m_forwarding = true;
 		forward_packet(std::move(p));
+		if (alive.expired()) return;
 		m_forwarding = false;
 
 		if (m_queue.size())
